@@ -64,16 +64,18 @@ def std_panicking(callee, targs, argtys):
 
 
 class Edge:
-    __slots__ = ("fn", "kind", "detail", "ordinal", "where", "block", "cls", "why", "term")
+    __slots__ = ("fn", "kind", "detail", "ordinal", "where", "block", "cls", "why", "term", "owner", "extra_guards")
 
     def __init__(self, fn, kind, detail, ordinal, where, block, term):
         self.fn, self.kind, self.detail, self.ordinal, self.where, self.block, self.term = fn, kind, detail, ordinal, where, block, term
         self.cls = None
         self.why = ""
+        self.owner = fn          # the function the edge is accounted to (its only caller, for an absorbed helper: inline.py)
+        self.extra_guards = 0    # controlling branches of the call site(s) in the owner
 
     @property
     def key(self):
-        return "%s|%s|%s|%d" % (self.fn, self.kind, self.detail, self.ordinal)
+        return "%s|%s|%s|%d" % (self.owner, self.kind, self.detail, self.ordinal)
 
 
 def _macros(t):
@@ -212,6 +214,34 @@ def collect(facts, nodes):
             if c:
                 e.cls, e.why = c
             out.append(e)
+    # edges of an absorbed helper (a new private function with one calling function, engine/py/inline.py) are accounted to that
+    # caller: the audit was made when the statements still stood there. Ordinals continue after the caller's own edges.
+    absorbed = getattr(facts, "absorbed", {})
+    if absorbed:
+        own = defaultdict(int)
+        for e in out:
+            if e.fn not in absorbed:
+                own[(e.fn, e.kind, e.detail)] = max(own[(e.fn, e.kind, e.detail)], e.ordinal)
+        for helper in sorted({e.fn for e in out if e.fn in absorbed}):
+            callers = absorbed.get(helper)
+            if not callers or len(callers) != 1:
+                continue
+            owner = callers[0]
+            ofn = facts.fns.get(owner)
+            if ofn is None:
+                continue
+            sites = [bi for bi, t in ofn.mir_calls() if strip_generics(t["f"]) == strip_generics(helper)]
+            extra = min([guard_count(ofn, bi) for bi in sites] or [0])
+            top = defaultdict(int)
+            for e in out:
+                if e.fn != helper:
+                    continue
+                e.extra_guards = extra
+                e.owner = owner
+                top[(e.kind, e.detail)] = max(top[(e.kind, e.detail)], e.ordinal)
+                e.ordinal = own[(owner, e.kind, e.detail)] + e.ordinal
+            for (kind, detail), n in top.items():
+                own[(owner, kind, detail)] += n
     return bodies, out
 
 
